@@ -2,7 +2,8 @@
 
 CHECK = {'pkg': '.',
  'sim': True,
- 'parts': [{'name': 'metadata', 'test': 'TestVF_C15', 'quick': {'shards': 8, 'checks': 200}, 'thorough': {'shards': 16, 'checks': 20000}}],
+ 'parts': [{'name': 'metadata', 'test': 'TestVF_C15', 'quick': {'shards': 8, 'checks': 200}, 'thorough': {'shards': 16, 'checks': 20000}},
+           {'name': 'stalehandle', 'test': 'TestVF_C15_StaleHandle', 'quick': {'shards': 1, 'checks': 60}, 'thorough': {'shards': 1, 'checks': 300}}],
  'rule': 'rapid draws: Kafka version 0.8.2 / 0.10.0 / 1.0 / 2.1 (metadata request v0 / v1 / v5), Metadata.Full on/off, Metadata.Retry.Max 0..3 '
          '(backoff 1 ms), background refresh off or every 1-2 ms, MaxOpenRequests 1..3, 1-4 brokers, 1-3 seed addresses (some never listening), 0-3 '
          'initial topics, an optional fault before NewClient, 6-18 phase-A steps and (about half of the cases) a phase B with 2-4 reader goroutines '
